@@ -186,6 +186,7 @@ class _Counter(logging.Handler):
     self.n = 0
 
   def emit(self, record):
+    record.getMessage()          # formats the record, as a real handler does: a malformed format / argument pair raises here
     self.n += 1
 
 
